@@ -318,6 +318,424 @@ pub fn check_frame(ch: &mut Choices, cx: &mut Ctx) -> R {
     Ok(())
 }
 
+
+// ---------------------------------------------------------------------------
+// (b) line programs (through Dwarf::from on a one-entry unit, or the stepwise API)
+// ---------------------------------------------------------------------------
+
+use crate::c04::{encode_program, gen_header, gen_program};
+use crate::enc::W;
+use crate::linemodel::*;
+
+pub struct LineIn {
+    pub h: LineHeader,
+    pub big: bool,
+    pub ops: Vec<LOp>,
+    pub lead_pad: usize,
+    pub strs: Vec<u8>,
+    pub line_strs: Vec<u8>,
+}
+
+const STR_POOL: [&[u8]; 6] = [b"alpha.c", b"beta", b"src/gamma.rs", b"", b"delta-dir", b"e"];
+
+fn pool_section() -> (Vec<u8>, Vec<u64>) {
+    let mut v = vec![0x5au8, 0x5a, 0]; // a leading string so that offset 0 is not special
+    let mut offs = Vec::new();
+    for s in STR_POOL {
+        offs.push(v.len() as u64);
+        v.extend_from_slice(s);
+        v.push(0);
+    }
+    (v, offs)
+}
+
+pub fn gen_line(ch: &mut Choices) -> LineIn {
+    let mut h = gen_header(ch);
+    let wild = ch.chance(30);
+    let (pool, offs) = pool_section();
+    // paths must resolve: map section offsets into the pools; indexed forms are exercised in the unit part
+    let fix = |p: &PathVal, ch: &mut Choices| -> PathVal {
+        match p {
+            PathVal::Inline(b) => PathVal::Inline(b.clone()),
+            PathVal::LineStrp(_) => PathVal::LineStrp(offs[ch.below(offs.len())]),
+            PathVal::Strp(_) => PathVal::Strp(offs[ch.below(offs.len())]),
+            PathVal::Strx(..) => PathVal::LineStrp(offs[ch.below(offs.len())]),
+        }
+    };
+    let fixform = |f: u16| -> u16 {
+        match f {
+            0x1a | 0x25 | 0x26 | 0x27 | 0x28 | 0x1f02 => FORM_LINE_STRP,
+            f => f,
+        }
+    };
+    for d in h.dirs.iter_mut() {
+        *d = fix(d, ch);
+    }
+    for f in h.dir_format.iter_mut() {
+        if f.0 == 1 {
+            f.1 = fixform(f.1);
+        }
+    }
+    for f in h.file_format.iter_mut() {
+        if f.0 == 1 || f.0 == 0x2001 {
+            f.1 = fixform(f.1);
+        }
+    }
+    let ndirs = h.dirs.len() as u64 + if h.version <= 4 { 1 } else { 0 };
+    for f in h.files.iter_mut() {
+        f.path = fix(&f.path, ch);
+        if let Some(s) = &f.source {
+            f.source = Some(fix(s, ch));
+        }
+        if !wild {
+            f.dir %= ndirs.max(1);
+        }
+    }
+    if !wild {
+        h.min_inst_len = ch.pick(&[1u8, 1, 2, 4]);
+        if h.line_base > 0 {
+            h.line_base = -h.line_base;
+        }
+        if h.line_base as i16 + h.line_range as i16 <= 0 {
+            h.line_base = -((h.line_range / 2) as i8).max(0);
+        }
+        while h.files.len() < 2 {
+            let i = h.files.len() as u8;
+            h.files.push(FileSpec { path: PathVal::Inline(vec![b'f', b'0' + i]), dir: 0, mtime: 0, size: 0, md5: [i; 16], source: None });
+            if h.version >= 5 {
+                let form = h.file_format.iter().find(|f| f.0 == 1).map(|f| f.1).unwrap_or(FORM_STRING);
+                if form != FORM_STRING {
+                    h.files.last_mut().unwrap().path = PathVal::LineStrp(offs[0]);
+                }
+                if h.file_format.iter().any(|f| f.0 == 0x2001) {
+                    let sform = h.file_format.iter().find(|f| f.0 == 0x2001).map(|f| f.1).unwrap_or(FORM_STRING);
+                    h.files.last_mut().unwrap().source = Some(if sform == FORM_STRING { PathVal::Inline(b"src".to_vec()) } else { PathVal::LineStrp(offs[1]) });
+                }
+            }
+        }
+        if h.version >= 4 {
+            h.max_ops = ch.pick(&[1u8, 1, 1, 2, 4]);
+        }
+        if h.opcode_base < 10 && ch.chance(200) {
+            h.opcode_base = 13;
+            h.std_lengths = STD_LENGTHS.to_vec();
+        }
+    }
+    let mut ops = gen_program(ch, &h);
+    let m = mask(h.address_size);
+    let nfiles = h.files.len() as u64;
+    for op in ops.iter_mut() {
+        match op {
+            LOp::SetFile(f) if !wild => {
+                *f = if h.version <= 4 { 1 + *f % nfiles.max(1) } else { *f % nfiles.max(1) };
+            }
+            LOp::SetAddress(a, _) if ch.chance(24) => *a = m, // tombstone
+            LOp::DefineFile(_, d, _, _, _) if !wild => *d %= ndirs.max(1),
+            _ => {}
+        }
+    }
+    LineIn { h, big: ch.bool(), ops, lead_pad: if ch.chance(60) { 1 + ch.below(9) } else { 0 }, strs: pool.clone(), line_strs: pool }
+}
+
+pub struct LineSections {
+    pub info: Vec<u8>,
+    pub abbrev: Vec<u8>,
+    pub line: Vec<u8>,
+    pub strs: Vec<u8>,
+    pub line_strs: Vec<u8>,
+}
+
+/// A unit consisting of a root entry with name, comp_dir and stmt_list.
+pub fn mini_unit(version: u16, format64: bool, address_size: u8, big: bool, stmt_list: u64) -> (Vec<u8>, Vec<u8>) {
+    let mut a = W::new(big);
+    let stmt_form: u64 = if version >= 4 { 0x17 } else if format64 { 0x07 } else { 0x06 };
+    a.uleb(1).uleb(0x11).u8(0);
+    a.uleb(0x03).uleb(0x08).uleb(0x1b).uleb(0x08).uleb(0x10).uleb(stmt_form).uleb(0).uleb(0);
+    a.u8(0);
+    let mut w = W::new(big);
+    let tok = w.begin_length(format64);
+    w.u16(version);
+    if version >= 5 {
+        w.u8(1).u8(address_size).word(0, format64);
+    } else {
+        w.word(0, format64).u8(address_size);
+    }
+    w.uleb(1).cstr(b"unit-name.c").cstr(b"/comp/dir").word(stmt_list, format64);
+    w.end_length(tok);
+    (w.buf, a.buf)
+}
+
+pub fn build_line_sections(c: &LineIn) -> LineSections {
+    let prog = encode_program(&c.ops, &c.h, c.big);
+    let (bytes, _) = build_line(&c.h, c.big, &prog);
+    let mut line = vec![0xeeu8; c.lead_pad];
+    line.extend_from_slice(&bytes);
+    let (info, abbrev) = mini_unit(c.h.version.max(2), c.h.format64, c.h.address_size, c.big, c.lead_pad as u64);
+    LineSections { info, abbrev, line, strs: c.strs.clone(), line_strs: c.line_strs.clone() }
+}
+
+type Map = std::collections::BTreeMap<&'static str, Vec<u8>>;
+
+pub fn load_map<'a>(map: &'a Map, big: bool) -> gimli::Dwarf<EndianSlice<'a, RunTimeEndian>> {
+    let endian = if big { RunTimeEndian::Big } else { RunTimeEndian::Little };
+    let empty: &[u8] = &[];
+    gimli::Dwarf::load(|id| -> Result<_, gimli::Error> { Ok(EndianSlice::new(map.get(id.name()).map(|v| &v[..]).unwrap_or(empty), endian)) }).unwrap()
+}
+
+/// Convert with Dwarf::from (or the stepwise API) and write all sections.
+pub fn convert_dwarf(map: &Map, big: bool, stepwise: bool) -> Result<Map, String> {
+    let endian = if big { RunTimeEndian::Big } else { RunTimeEndian::Little };
+    let dwarf = load_map(map, big);
+    let ca = |a: u64| Some(w::Address::Constant(a));
+    let mut out = if stepwise {
+        let mut wd = w::Dwarf::new();
+        {
+            let mut conv = wd.convert(&dwarf).map_err(|e| format!("convert:{:?}", e))?;
+            while let Some((mut unit, root)) = conv.read_unit().map_err(|e| format!("convert:{:?}", e))? {
+                if let Some(mut lp) = unit.read_line_program(None, None).map_err(|e| format!("convert:{:?}", e))? {
+                    // sequence-wise conversion
+                    while let Some(seq) = lp.read_sequence().map_err(|e| format!("convert:{:?}", e))? {
+                        if let Some(start) = seq.start {
+                            lp.set_address(w::Address::Constant(start));
+                        }
+                        for row in seq.rows {
+                            lp.generate_row(row);
+                        }
+                        if let w::ConvertLineSequenceEnd::Length(len) = seq.end {
+                            lp.end_sequence(len);
+                        }
+                    }
+                    if lp.in_sequence() {
+                        return Err("convert:MissingLineEndSequence".into());
+                    }
+                    let (program, files) = lp.program();
+                    unit.set_line_program(program, files);
+                }
+                let root_id = unit.unit.root();
+                for attr in &root.attrs {
+                    let v = unit.convert_attribute_value(root.read_unit, attr, &ca).map_err(|e| format!("convert:{:?}", e))?;
+                    unit.unit.get_mut(root_id).set(attr.name(), v);
+                }
+                let mut entry = root;
+                while let Some(id) = unit.read_entry(&mut entry).map_err(|e| format!("convert:{:?}", e))? {
+                    if id.is_none() {
+                        continue;
+                    }
+                    let id = unit.add_entry(id, &entry);
+                    for attr in &entry.attrs {
+                        if attr.name() == gimli::DW_AT_GNU_locviews {
+                            continue;
+                        }
+                        let v = unit.convert_attribute_value(entry.read_unit, attr, &ca).map_err(|e| format!("convert:{:?}", e))?;
+                        unit.unit.get_mut(id).set(attr.name(), v);
+                    }
+                }
+            }
+        }
+        wd
+    } else {
+        w::Dwarf::from(&dwarf, &ca).map_err(|e| format!("convert:{:?}", e))?
+    };
+    let mut sections = w::Sections::new(w::EndianVec::new(endian));
+    out.write(&mut sections).map_err(|e| format!("write:{:?}", e))?;
+    let mut m = Map::new();
+    sections
+        .for_each(|id, data| -> Result<(), w::Error> {
+            m.insert(id.name(), data.slice().to_vec());
+            Ok(())
+        })
+        .unwrap();
+    Ok(m)
+}
+
+/// `before `ADDR.OP end_sequence` after `ADDR.OP' end_sequence``: same address, different op_index.
+fn only_op_index_differs(detail: &str) -> bool {
+    let parts: Vec<&str> = detail.split('`').collect();
+    if parts.len() < 4 {
+        return false;
+    }
+    let addr = |s: &str| s.split('.').next().unwrap_or("").to_string();
+    parts[1].ends_with("end_sequence") && parts[3].ends_with("end_sequence") && addr(parts[1]) == addr(parts[3])
+}
+
+/// A DW_LNE_set_address after the first row of a sequence.
+fn has_mid_sequence_set_address(c: &LineIn) -> bool {
+    let mut seen_row = false;
+    for op in &c.ops {
+        match op {
+            LOp::Special(_) | LOp::Copy => seen_row = true,
+            LOp::EndSequence(_) => seen_row = false,
+            LOp::SetAddress(..) if seen_row => return true,
+            _ => {}
+        }
+    }
+    false
+}
+
+/// The file tables agree once timestamp/size/md5/source are ignored (and duplicates removed).
+fn same_files_ignoring_info(a: &sem::DwarfDump, b: &sem::DwarfDump) -> bool {
+    let strip = |d: &sem::DwarfDump| -> Vec<Vec<String>> {
+        d.units
+            .iter()
+            .map(|u| {
+                let mut v: Vec<String> = u.line.as_ref().map(|l| l.files.iter().map(|f| strip_info(f)).collect()).unwrap_or_default();
+                v.sort();
+                v.dedup();
+                v
+            })
+            .collect()
+    };
+    strip(a) == strip(b)
+}
+
+fn strip_info(f: &str) -> String {
+    let mut out = String::new();
+    let mut skip = false;
+    for tok in f.split(' ') {
+        if tok.starts_with("t=") || tok.starts_with("size=") || tok.starts_with("source=") {
+            continue;
+        }
+        if tok.starts_with("md5=") {
+            skip = true;
+        }
+        if skip {
+            if tok.ends_with(']') {
+                skip = false;
+            }
+            continue;
+        }
+        out.push_str(tok);
+        out.push(' ');
+    }
+    out
+}
+
+fn rows_equal_ignoring_file_info(a: &sem::DwarfDump, b: &sem::DwarfDump) -> bool {
+    a.units.len() == b.units.len()
+        && a.units.iter().zip(b.units.iter()).all(|(x, y)| match (&x.line, &y.line) {
+            (Some(l), Some(m)) => l.rows.len() == m.rows.len() && l.rows.iter().zip(m.rows.iter()).all(|(r, s)| strip_info(r) == strip_info(s)),
+            (None, None) => true,
+            _ => false,
+        })
+}
+
+/// The (resolved) input file table has two entries with the same directory and name but different information.
+fn has_same_name_entries_with_different_info(d: &sem::DwarfDump) -> bool {
+    d.units.iter().any(|u| match &u.line {
+        Some(l) => {
+            let mut v: Vec<String> = l.files.iter().map(|f| strip_info(f)).collect();
+            let n = v.len();
+            v.sort();
+            v.dedup();
+            v.len() < n
+        }
+        None => false,
+    })
+}
+
+/// Labels are &'static str: error names form a small closed set, so leaking one copy of each is fine.
+fn intern(s: &str) -> &'static str {
+    use std::sync::Mutex;
+    static TABLE: Mutex<Vec<&'static str>> = Mutex::new(Vec::new());
+    let mut t = TABLE.lock().unwrap();
+    if let Some(x) = t.iter().find(|x| **x == s) {
+        return x;
+    }
+    let l: &'static str = Box::leak(s.to_string().into_boxed_str());
+    t.push(l);
+    l
+}
+
+fn line_nontrivial(c: &LineIn) -> bool {
+    let mut seen_row = false;
+    for op in &c.ops {
+        match op {
+            LOp::Special(_) | LOp::Copy => seen_row = true,
+            LOp::EndSequence(_) => seen_row = false,
+            LOp::SetAddress(..) if seen_row => return true,
+            LOp::FixedAdvancePc(_) | LOp::DefineFile(..) | LOp::ConstAddPc => return true,
+            _ => {}
+        }
+    }
+    c.h.min_inst_len > 1 || c.h.max_ops > 1
+}
+
+pub fn check_line(ch: &mut Choices, cx: &mut Ctx) -> R {
+    let c = gen_line(ch);
+    let stepwise = ch.chance(100);
+    cx.label(if stepwise { "line: stepwise API (read_sequence)" } else { "line: Dwarf::from" });
+    let secs = build_line_sections(&c);
+    cx.sample_with(|| format!("line program v{} {} addr{} {} min_inst {} max_ops {} base {} range {} opcode_base {} dirs {:?} files {:?} ops {:?}", c.h.version, if c.h.format64 { "dwarf64" } else { "dwarf32" }, c.h.address_size, if c.big { "BE" } else { "LE" }, c.h.min_inst_len, c.h.max_ops, c.h.line_base, c.h.line_range, c.h.opcode_base, c.h.dirs, c.h.files.iter().map(|f| (&f.path, f.dir)).collect::<Vec<_>>(), c.ops));
+    let mut map = Map::new();
+    map.insert(".debug_info", secs.info);
+    map.insert(".debug_abbrev", secs.abbrev);
+    map.insert(".debug_line", secs.line);
+    map.insert(".debug_str", secs.strs);
+    map.insert(".debug_line_str", secs.line_strs);
+    let d0 = {
+        let dwarf = load_map(&map, c.big);
+        sem::dwarf_dump(&dwarf)
+    };
+    let accepted = match &d0 {
+        Ok(d) => d.units.iter().all(|u| matches!(&u.line, Some(l) if l.end.is_ok())),
+        Err(_) => false,
+    };
+    let out = match convert_dwarf(&map, c.big, stepwise) {
+        Ok(o) => o,
+        Err(e) => {
+            cx.label(if !accepted { "line: input rejected by the reader" } else if e.starts_with("convert") { "line: conversion refused" } else { "line: write refused" });
+            if accepted {
+                cx.label(intern(&format!("line refused: {}", e)));
+            }
+            return Ok(());
+        }
+    };
+    if !accepted {
+        cx.label("line: input rejected by the reader");
+        return Ok(());
+    }
+    let d0 = d0.unwrap();
+    let d1 = {
+        let dwarf = load_map(&out, c.big);
+        match sem::dwarf_dump(&dwarf) {
+            Ok(d) => d,
+            Err(e) => fail!("c12/line/output-unreadable", "{}", e),
+        }
+    };
+    cx.say(|| format!("before: {:?}\nafter: {:?}", d0, d1));
+    if let Some(diff) = sem::diff_dumps(&d0, &d1) {
+        // a recorded finding gets its own signature (see known_findings.json); everything else is reported as is
+        if (diff.0 == "line-files" || diff.0 == "line-row") && same_files_ignoring_info(&d0, &d1) && has_same_name_entries_with_different_info(&d0) && rows_equal_ignoring_file_info(&d0, &d1) {
+            cx.report(Failure { sig: "c12/line/known/duplicate-file-entries-with-different-info".into(), detail: diff.1.clone() })?;
+            cx.label("line: duplicate file entries with different info collapsed (recorded finding)");
+            return Ok(());
+        }
+        fail!(format!("c12/line/{}", diff.0), "{}", diff.1);
+    }
+    cx.label("line: converted and compared");
+    if line_nontrivial(&c) && d0.units[0].line.as_ref().map(|l| l.rows.len() >= 2).unwrap_or(false) {
+        cx.nt();
+    }
+    // converting the output again reproduces it
+    match convert_dwarf(&out, c.big, false) {
+        Ok(out2) => {
+            let dwarf = load_map(&out2, c.big);
+            let d2 = match sem::dwarf_dump(&dwarf) {
+                Ok(d) => d,
+                Err(e) => fail!("c12/line/second-output-unreadable", "{}", e),
+            };
+            if let Some(diff) = sem::diff_dumps(&d1, &d2) {
+                fail!(format!("c12/line/second-conversion/{}", diff.0), "{}", diff.1);
+            }
+            for (k, v) in &out {
+                ensure_eq!(out2.get(k), Some(v), "c12/line/second-conversion-bytes", "section {} differs after converting the output again", k);
+            }
+        }
+        Err(e) => fail!("c12/line/second-conversion-fails", "{}", e),
+    }
+    Ok(())
+}
+
 impl Prop for C12 {
     fn id(&self) -> &'static str {
         "C12"
@@ -344,6 +762,9 @@ impl Prop for C12 {
         }
     }
     fn run_case(&self, ch: &mut Choices, cx: &mut Ctx) -> R {
-        check_frame(ch, cx)
+        match ch.below(3) {
+            0 => check_frame(ch, cx),
+            _ => check_line(ch, cx),
+        }
     }
 }
